@@ -279,6 +279,38 @@ void suite_cksum(int tier) {
         op_crc(d, n); free(d);
         stat_add("cksum.crc_buffers", 1);
     }
+    /* direct oracle on large payloads (no model line): per-fragment payloads of exactly 64 KiB / 1 MiB (2 MiB, 4 MiB
+       thorough) and one byte around them — writers store the CRC of the whole payload under either switch value, and a
+       flipped bit anywhere (first, last, just before / after every 64 KiB and 1 MiB boundary) is reported */
+    {
+        size_t P[] = { 65536, 1048576, 1048577, 1048575, 2097152, 4194304, 262144 };
+        for (int pi = 0; pi < (tier ? 7 : 4); pi++) for (int lg = 0; lg < 2; lg++) {
+            cfg_t c = pi % 2 ? (cfg_t){ 3, 3, 3, 3, 2 } : (cfg_t){ 6, 2, 1, 1, 2 };
+            size_t len = P[pi] * (size_t)c.k - (P[pi] % 4 ? 0 : 0);
+            stripe_t s;
+            if (stripe_make(&s, c, len, 0, lg) != 0) { oracle_fail("C10", "cannot encode %zu bytes", len); continue; }
+            size_t bs = s.flen - HDR;
+            for (int i = 0; i < s.n; i++) {
+                unsigned char *f = (unsigned char *)s.all[i];
+                uint32_t want = lg ? (uint32_t)liberasurecode_crc32_alt(0, f + HDR, (int)bs) : (uint32_t)crc32(0, f + HDR, (uInt)bs);
+                if (rd32(f + 21) != want) oracle_fail("C10", "payload of %zu bytes: fragment %d stores checksum %08x, the %s CRC of its payload is %08x", bs, i, rd32(f + 21), lg ? "historical" : "standard", want);
+                if (is_invalid_fragment(s.desc, (char *)f)) oracle_fail("C10", "payload of %zu bytes: fresh fragment %d reported invalid", bs, i);
+            }
+            unsigned char *mut = malloc(s.flen); int fi = (int)rnd(s.n);
+            size_t pos[] = { 0, bs - 1, bs / 2, 65535, 65536, bs > 1048576 ? 1048575 : bs - 2, bs > 1048576 ? 1048576 : bs / 3, bs - 65536 < bs ? bs - 65536 : 0, bs - 1048576 < bs ? bs - 1048576 : 1 };
+            for (unsigned q = 0; q < sizeof pos / sizeof pos[0]; q++) {
+                if (pos[q] >= bs) continue;
+                memcpy(mut, s.all[fi], s.flen); mut[HDR + pos[q]] ^= (unsigned char)(1u << (q % 8));
+                fragment_metadata_t md; int rc = liberasurecode_get_fragment_metadata((char *)mut, &md);
+                if (rc != 0 || !md.chksum_mismatch || !is_invalid_fragment(s.desc, (char *)mut))
+                    oracle_fail("C10", "payload of %zu bytes: bit flipped at payload offset %zu of fragment %d not reported (rc %d, mismatch flag %d)", bs, pos[q], fi, rc, rc ? -1 : (int)md.chksum_mismatch);
+                stat_add("cksum.large_payload_corruptions", 1);
+            }
+            free(mut);
+            stat_add("cksum.large_payload_stripes", 1);
+            stripe_free(&s);
+        }
+    }
     int stripes = tier ? 40 : 8;
     for (int t = 0; t < stripes; t++) {
         cfg_t c = cfg_random_ec();
